@@ -53,8 +53,8 @@ struct TreeWorld : World {
 		for (int i = 0; i < nops; ++i) {
 			Op op;
 			static const int kinds[] = {OP_NEW, OP_NEW, OP_NEW, OP_INSERT, OP_INSERT, OP_INSERT, OP_ADD, OP_ADD, OP_AFTER, OP_BEFORE, OP_UNLINK, OP_UNLINK, OP_MOVE, OP_CLONE, OP_LIST_CLONE, OP_TREE_CLONE, OP_TREE_CLONE,
-			                            OP_SWAP, OP_CLEAR, OP_DESTROY, OP_DESTROY, OP_QUERY, OP_TEXT_CLONE};
-			op.kind = r.pick(kinds); // SWITCH and RELINK (mpt_gnode_switch, mpt_gnode_relink) stay replayable but are not generated: not among the operations of the statement, see DESIGN.md
+			                            OP_SWAP, OP_CLEAR, OP_DESTROY, OP_DESTROY, OP_QUERY, OP_TEXT_CLONE, OP_SWITCH, OP_RELINK};
+			op.kind = r.pick(kinds);
 			op.a = r.below(64) | (r.below(64) << 8);  // node selectors
 			op.b = r.range(-3, 3);                    // position
 			op.c = r.below(7) | (r.below(3) << 8) | ((r.chance(1, 2) ? 1 : 0) << 12); // name, value kind (0 none, 1 clonable, 2 not clonable), by-name variant
@@ -364,8 +364,13 @@ struct TreeWorld : World {
 			}
 			case OP_RELINK: {
 				if (!x) break;
+				// the links the call is there to restore (parent and backward links beneath the node, as manual concatenation leaves them) are
+				// wiped first in half of the cases; the audit then demands the sound tree back
+				bool wiped = (op.c & 1) != 0;
+				if (wiped) { std::vector<node *> todo; for (node *c = x->children; c; c = c->next) todo.push_back(c);
+					size_t guard = 0; while (!todo.empty() && ++guard < 100000) { node *d = todo.back(); todo.pop_back(); d->parent = 0; d->prev = 0; for (node *c = d->children; c; c = c->next) todo.push_back(c); } }
 				{ Sut s; mpt_gnode_relink(x); }
-				log.ev("RELINK %d", idof(x));
+				log.ev("RELINK %d%s", idof(x), wiped ? " (links beneath it wiped)" : "");
 				outcome = 1;
 				break;
 			}
